@@ -27,16 +27,18 @@ CHECKS = {
         technique="TLA+ reader model (TLC) + trace validation of recorded parser runs against ParserContract (schedule independence)"),
     "C03": dict(
         category="model_checking",
-        text="Values of every format are written by the real writers and parsed by the real parsers; ParserContract requires "
-             "a clean end and exactly the value's items, and the written bytes must also read back under the independent "
-             "TLA+ specifications (AigerRef reference reading with arbitrary-precision numerals incl. every delta-code "
-             "length; the Dimacs token machine). Accepted texts are parsed, written and parsed again and must return the "
+        text="Render.tla specifies what every writer must produce; MC_Render checks Read(Render(v)) = v for all small values "
+             "at specification level. Values of every format are written by the real writers and parsed by the real "
+             "parsers: the bytes must equal Render(value) (Trace_Render), ParserContract requires a clean end and exactly "
+             "the value's items, and the bytes must read back under the independent readings (AigerRef with arbitrary "
+             "precision incl. every delta-code length, Btor2Ref, the Dimacs token machine). Accepted texts are parsed, written and parsed again and must return the "
              "same items. The buffered writer underneath is model-checked (MC_Writer), the decimal arithmetic of the "
              "oracles in MC_Digits.",
         design_ref="DESIGN.md §5 C03, §7",
         note="Domain per DESIGN §7 (names without LF, symbols without blanks, ...). Values are sampled, not enumerated; the "
              "written bytes are also read by the independent TLA+ readings (Dimacs machine, AigerRef, Btor2Ref).",
-        technique="round-trip traces validated against ParserContract expectations, AigerRef and the Dimacs machine (TLC)"),
+        technique="TLA+ Render/Read specifications model-checked (MC_Render) + round-trip traces validated against Render, "
+                  "ParserContract expectations and the reference readings"),
     "C04": dict(
         category="model_checking",
         text="The reader model explores every fault offset (error parked, complete, reported exactly once); every input is "
